@@ -33,6 +33,7 @@ type randLog struct {
 	r     *RNG
 	reads [][]byte
 	fail  int // fail the n-th next read (1-based); 0 = never
+	owner *Party
 }
 
 func (l *randLog) Read(p []byte) (int, error) {
@@ -52,6 +53,9 @@ func (l *randLog) Read(p []byte) (int, error) {
 		copy(p, l.r.Bytes(n))
 	}
 	l.reads = append(l.reads, append([]byte{}, p...))
+	if n == 40 && l.owner != nil {
+		l.owner.akeExp = append([]byte{}, p...)
+	}
 	return n, nil
 }
 
@@ -61,12 +65,15 @@ type Party struct {
 	pol     int
 	rnd     *randLog
 	events  []int
-	outs    [][]byte // every wire message emitted, oldest first
+	outs    [][]byte // every wire message emitted (reassembled if it was fragmented), oldest first
+	pieces  [][][]byte // the pieces each output was actually emitted as
+	frag    int
 	pending int      // index of the first output not yet delivered in FIFO order
 	texts   [][]byte // texts passed to Send
 	plains  [][]byte // plaintexts returned by Receive
 	keyFp   []byte
 	skip    map[int]bool // outputs the network drops (never delivered in FIFO order)
+	akeExp  []byte       // the most recent 40-byte value drawn (DH exponent)
 }
 
 func (p *Party) HandleSMPEvent(e otr3.SMPEvent, pct int, q string) { p.events = append(p.events, 200+int(e)) }
@@ -83,6 +90,7 @@ var partyKeys = []*otr3.DSAPrivateKey{nil, aliceKey, bobKey, eveKey}
 
 func newParty(id, pol int, seed uint64) *Party {
 	p := &Party{id: id, pol: pol, rnd: &randLog{r: NewRNG(seed*977 + uint64(id))}}
+	p.rnd.owner = p
 	c := &otr3.Conversation{}
 	otr3.VerifSetPolicies(c, pol)
 	c.Rand = p.rnd
@@ -98,7 +106,19 @@ func newParty(id, pol int, seed uint64) *Party {
 }
 
 // Sys is the system under test: parties 1..n.
+type callRec struct {
+	who       int
+	human     string
+	preState  int // msgState before the call
+	postState int
+	outs      [][]byte
+	events    []int
+	plain     []byte
+	err       bool
+}
+
 type Sys struct {
+	calls     []callRec
 	ps        []*Party // index 0 unused
 	now       int
 	ops       []string // Coq terms
@@ -106,6 +126,7 @@ type Sys struct {
 	trace     []string // human readable
 	disclosed [][][]byte
 	panicked  bool
+	fragEarly bool // a piece other than the last one of a unit produced something
 }
 
 func newSys(pols []int, seed uint64) *Sys {
@@ -114,6 +135,12 @@ func newSys(pols []int, seed uint64) *Sys {
 		s.ps = append(s.ps, newParty(i+1, p, seed))
 	}
 	return s
+}
+
+// SetFragmentSize makes party who fragment its output
+func (s *Sys) SetFragmentSize(who, size int) {
+	s.ps[who].frag = size
+	s.ps[who].c.SetFragmentSize(uint16(size))
 }
 
 func (s *Sys) tick(secs int) {
@@ -266,6 +293,7 @@ func (s *Sys) record(who int, coq string, human string, f func(p *Party) (plain 
 	var out []otr3.ValidMessage
 	var err error
 	panicked := false
+	pre := otr3.VerifSnapshot(p.c).MsgState
 	func() {
 		defer func() {
 			if r := recover(); r != nil {
@@ -282,9 +310,11 @@ func (s *Sys) record(who int, coq string, human string, f func(p *Party) (plain 
 		errc = 9
 		s.panicked = true
 	}
-	outs := otr3.Bytes(out)
+	rawOuts := otr3.Bytes(out)
+	outs, pcs := groupFragments(rawOuts)
 	base := len(p.outs)
 	p.outs = append(p.outs, outs...)
+	p.pieces = append(p.pieces, pcs...)
 	ows := make([]Val, len(outs))
 	for i, m := range outs {
 		ows[i] = s.obsWire(who, m)
@@ -303,8 +333,44 @@ func (s *Sys) record(who int, coq string, human string, f func(p *Party) (plain 
 	}
 	s.ops = append(s.ops, coq)
 	s.obs = append(s.obs, L(pv, N(errc), VL(evs), VL(ows), s.obsState(who)))
+	s.calls = append(s.calls, callRec{who: who, human: human, preState: pre, postState: otr3.VerifSnapshot(p.c).MsgState,
+		outs: outs, events: append([]int{}, p.events...), plain: plain, err: err != nil})
 	s.trace = append(s.trace, fmt.Sprintf("%s -> plain=%q err=%v events=%v outs=%d", human, plain, err, p.events, len(outs)))
 	return plain, outs, panicked
+}
+
+// groupFragments reassembles fragmented outputs: every run of pieces k=1..n becomes one unit
+func groupFragments(raw [][]byte) (units [][]byte, pieces [][][]byte) {
+	var cur [][]byte
+	var buf []byte
+	for _, m := range raw {
+		isFrag := bytes.HasPrefix(m, []byte("?OTR|")) || bytes.HasPrefix(m, []byte("?OTR,"))
+		if !isFrag {
+			units = append(units, m)
+			pieces = append(pieces, [][]byte{m})
+			continue
+		}
+		parts := bytes.Split(m, []byte(","))
+		// v3: ?OTR|s|r , k , n , payload , ""   v2: ?OTR , k , n , payload , ""
+		if len(parts) < 5 {
+			units = append(units, m)
+			pieces = append(pieces, [][]byte{m})
+			continue
+		}
+		k, n, payload := string(parts[1]), string(parts[2]), parts[3]
+		cur = append(cur, m)
+		buf = append(buf, payload...)
+		if k == n {
+			units = append(units, buf)
+			pieces = append(pieces, cur)
+			cur, buf = nil, nil
+		}
+	}
+	if cur != nil { // incomplete run (should not happen)
+		units = append(units, buf)
+		pieces = append(pieces, cur)
+	}
+	return
 }
 
 // smpRands: the SMP-parameter sized reads made during the last call of party p, as numbers
@@ -562,8 +628,31 @@ func (s *Sys) Deliver(from, idx, to int, mut Mut) ([]byte, bool) {
 	var plain []byte
 	var panicked bool
 	// the randomness used is only known afterwards; record with a placeholder and patch the op
+	pcs := s.ps[from].pieces[idx]
 	plain, _, panicked = s.record(to, "", fmt.Sprintf("Deliver(%d#%d -> %d, %s)", from, idx, to, mut.Kind),
-		func(p *Party) ([]byte, []otr3.ValidMessage, error) { return p.c.Receive(msg) })
+		func(p *Party) ([]byte, []otr3.ValidMessage, error) {
+			if mut.f != nil || len(pcs) <= 1 {
+				return p.c.Receive(msg)
+			}
+			// a fragmented unit: every piece in order; only the last one may produce anything
+			var pl []byte
+			var out []otr3.ValidMessage
+			var err error
+			for i, pc := range pcs {
+				pl2, out2, err2 := p.c.Receive(pc)
+				if i < len(pcs)-1 && (pl2 != nil || len(out2) > 0 || err2 != nil) {
+					s.fragEarly = true
+				}
+				if pl2 != nil {
+					pl = pl2
+				}
+				out = append(out, out2...)
+				if err2 != nil {
+					err = err2
+				}
+			}
+			return pl, out, err
+		})
 	rs, _ := rcv.takeRands()
 	s.ops[len(s.ops)-1] = fmt.Sprintf("ODeliver %d %d %d %s %d %s %d", from, idx, to, mut.Coq, aux, rs, s.now)
 	if plain != nil {
